@@ -261,6 +261,13 @@ public :
     XMLCh* getExternalSchemaLocation() const;
     XMLCh* getExternalNoNamespaceSchemaLocation() const;
     SecurityManager* getSecurityManager() const;
+
+    // Counts one more entity expansion against the limit of the installed
+    // SecurityManager (if any) and issues EntityExpansionLimitExceeded when
+    // it is exceeded. Used by the DTD scanner for the entity references that
+    // it expands itself (parameter entities, references in default values).
+    void countEntityExpansion();
+
     bool getDisallowDTD() const;
     bool getLoadExternalDTD() const;
     bool getLoadSchema() const;
